@@ -290,7 +290,7 @@ class PatternAnalyzer:
                     self.extract_tree_predicates(attr_op.value_type, type_pos, inputs)
                 )
 
-            elif attr_op.value:
+            elif attr_op.value is not None:
                 attr_constraint = Predicate.get_attribute_constraint(attr_op.value)
                 predicates.append(
                     PositionalPredicate(
@@ -536,14 +536,14 @@ class PatternAnalyzer:
         predicates: list[PositionalPredicate] = []
 
         match type_op:
-            case pdl.TypeOp(constantType=const_type) if const_type:
+            case pdl.TypeOp(constantType=const_type) if const_type is not None:
                 type_constraint = Predicate.get_type_constraint(const_type)
                 predicates.append(
                     PositionalPredicate(
                         q=type_constraint.q, a=type_constraint.a, position=type_pos
                     )
                 )
-            case pdl.TypesOp(constantTypes=const_types) if const_types:
+            case pdl.TypesOp(constantTypes=const_types) if const_types is not None:
                 type_constraint = Predicate.get_type_constraint(const_types)
                 predicates.append(
                     PositionalPredicate(
@@ -567,7 +567,7 @@ class PatternAnalyzer:
             match op:
                 case pdl.AttributeOp():
                     if op.output not in inputs:
-                        if op.value:
+                        if op.value is not None:
                             # Create literal position for constant attribute
                             attr_pos = AttributeLiteralPosition(
                                 value=op.value, parent=None
@@ -664,7 +664,7 @@ class PatternAnalyzer:
 
                 case pdl.TypeOp():
                     # Handle constant types
-                    if op.result not in inputs and op.constantType:
+                    if op.result not in inputs and op.constantType is not None:
                         type_pos = TypeLiteralPosition.get_type_literal(
                             value=op.constantType
                         )
@@ -672,7 +672,7 @@ class PatternAnalyzer:
 
                 case pdl.TypesOp():
                     # Handle constant type arrays
-                    if op.result not in inputs and op.constantTypes:
+                    if op.result not in inputs and op.constantTypes is not None:
                         type_pos = TypeLiteralPosition.get_type_literal(
                             value=op.constantTypes
                         )
@@ -2174,11 +2174,11 @@ class MatcherGenerator:
             # Prefer materializing constants directly when possible.
             old_op = old_value.owner
             new_val_op: Operation | None = None
-            if isinstance(old_op, pdl.AttributeOp) and old_op.value:
+            if isinstance(old_op, pdl.AttributeOp) and old_op.value is not None:
                 new_val_op = pdl_interp.CreateAttributeOp(old_op.value)
-            elif isinstance(old_op, pdl.TypeOp) and old_op.constantType:
+            elif isinstance(old_op, pdl.TypeOp) and old_op.constantType is not None:
                 new_val_op = pdl_interp.CreateTypeOp(old_op.constantType)
-            elif isinstance(old_op, pdl.TypesOp) and old_op.constantTypes:
+            elif isinstance(old_op, pdl.TypesOp) and old_op.constantTypes is not None:
                 new_val_op = pdl_interp.CreateTypesOp(old_op.constantTypes)
 
             if new_val_op is not None:
@@ -2502,7 +2502,7 @@ class MatcherGenerator:
         rewrite_values: dict[SSAValue, SSAValue],
         map_rewrite_value: Callable[[SSAValue], SSAValue],
     ):
-        if op.constantType:
+        if op.constantType is not None:
             create_type_op = pdl_interp.CreateTypeOp(op.constantType)
             self.rewriter_builder.insert(create_type_op)
             rewrite_values[op.result] = create_type_op.result
@@ -2513,7 +2513,7 @@ class MatcherGenerator:
         rewrite_values: dict[SSAValue, SSAValue],
         map_rewrite_value: Callable[[SSAValue], SSAValue],
     ):
-        if op.constantTypes:
+        if op.constantTypes is not None:
             create_types_op = pdl_interp.CreateTypesOp(op.constantTypes)
             self.rewriter_builder.insert(create_types_op)
             rewrite_values[op.result] = create_types_op.result
